@@ -112,8 +112,10 @@ CHECKS = {
              'init_inv (invariant of every reachable state), rejected_unchanged, tables_step, lookup_sound, project_replaced; tied to '
              'the real classes by running the same operation histories on both sides (all pairs/triples of core operations, random '
              'histories to length 60) and comparing outcome and canonical state after every step; model-free invariant oracle; '
-             'table-level column/index histories by oracle only.',
-        note=TB + '; identity modelled by universe indices; table-level (add/delete column, index) is not in the theorem',
+             'one level down, a second Lean state machine (TableCont.lean: add/delete of columns and indexes by object or position, owner '
+             'back-pointers, Column/Index equality) with theorems C09T.step_inv, reach_inv, init_inv, rejected_unchanged, '
+             'foreign_index_refused, accepted_index_subjects, cols_step, tied the same way (random histories of 30 operations, every step).',
+        note=TB + '; identity modelled by universe indices',
         technique='Lean 4 proof (invariant by induction over operations) + history correspondence + invariant oracle'),
     'C10': dict(
         level='translation_validation',
